@@ -251,9 +251,8 @@ class ProcGen:
             elif r < 0.92 and not in_if:
                 rhs = rng.choice([("const", "2.0"), ("const", "1.0")] if loops else
                                  [("read", "z", []), ("const", "1.0"), ("rc", "Cfg", "b"), ("binop", "+", ("read", "z", []), ("const", "2.0"))])
-                out.append(("wc", rng.choice(["Cfg", "Cfg", "Cfh"]), rng.choice(["a", "a", "b"]) if True else "a", rhs))
-                if out[-1][1] == "Cfh":
-                    out[-1] = ("wc", "Cfh", "a", rhs)
+                cfg = rng.choice(["Cfg", "Cfg", "Cfh"])
+                out.append(("wc", cfg, "a" if cfg == "Cfh" else rng.choice(["a", "a", "b"]), rhs))
             else:
                 self.nalloc += 1
                 name = rng.choice(["w", "w", f"w{self.nalloc}"])
@@ -730,6 +729,30 @@ class Oracle:
                 self.block_positions(root, p, "body", s.body, 0, acc)
         return acc
 
+    def find_all_in_block(self, root, past, anchor, attr, lo, hi):
+        """matches inside the block anchor.attr[lo:hi] (the scope of BlockCursor.find)"""
+        IC, P = self.IC, self.P
+        pm = self.PM()
+        pm._use_sym_id = False
+        try:
+            if isinstance(past, P.E_Hole) or (isinstance(past, list) and all(isinstance(q, P.S_Hole) for q in past)):
+                raise self.PME("anything")
+            stmts = getattr(IC.Node(root, anchor)._node, attr)
+            res = []
+            if isinstance(past, list):
+                for (ap, a, k, n) in self.block_positions(root, anchor, attr, stmts[:hi], lo, []):
+                    m = pm.match_stmts(past, IC.Block(root, IC.Node(root, ap), a, range(k, n)))
+                    if m is not None and len(m) > 0:
+                        res.append(canon_impl(m, IC))
+            else:
+                for k in range(lo, hi):
+                    for (p, n) in self.preorder(stmts[k], anchor + [(attr, k)], []):
+                        if pm.match_e(past, n):
+                            res.append(["N", cpath(p)])
+            return res
+        except Exception as e:  # noqa
+            return exc_name(e)
+
     def find_all(self, root, past, scope=None):
         """all raw matches (canonical impl cursors) or 'E:...'; scope = None (whole proc) or a stmt path"""
         IC, P = self.IC, self.P
@@ -942,8 +965,7 @@ class Checker:
                 continue
             raw = self.oracle.find_all(root, q["past"])
             exp = lift_expected(raw, q["spec_hash"], q["many"])
-            cls = ("err:" + exp) if isinstance(exp, str) else f"n={len(exp)}"
-            ctx.evaluated((kind, s, json.dumps(body_json)[:0] + tag), nontrivial=not isinstance(exp, str) or exp == "E:SchedulingError")
+            ctx.evaluated((kind, s, tag), nontrivial=not isinstance(exp, str) or exp == "E:SchedulingError")
             ctx.count("find:outcome:" + (exp if isinstance(exp, str) else ("match>1" if len(raw) > 1 else "match=1")))
             if q["spec_hash"] is not None:
                 ctx.count("find:hash:" + ("in-range" if not isinstance(raw, str) and q["spec_hash"] < len(raw) else "out-of-range"))
@@ -1023,6 +1045,25 @@ class Checker:
                 if got != exp:
                     ctx.violation("cursor.find:scoped", f"cursor.find({s!r}, many=True) at {path} of {tag} differs from brute force",
                                   {"source": source, "proc": tag, "scope": cpath(path), "pattern": s, "expected": exp, "got": got})
+            # the same through a BlockCursor (the body of that statement)
+            blk = PC.BlockCursor(IC.Node(root, list(path))._child_block("body"), p)
+            for s in pats[:2]:
+                if "#" in s:
+                    continue
+                try:
+                    past = self.pyparser.pattern(s, srcglobals=dict(self.scope_globals), srclocals={})
+                except Exception:  # noqa
+                    continue
+                try:
+                    got = [canon_impl(x._impl, IC) for x in blk.find(s, many=True)]
+                except Exception as e:  # noqa
+                    got = exc_name(e)
+                exp = lift_expected(self.oracle.find_all_in_block(root, past, list(path), "body", 0, len(n.body)), None, True)
+                ctx.count("find:scoped-block")
+                ctx.evaluated(("scoped-block", tag, str(path), s))
+                if got != exp:
+                    ctx.violation("blockcursor.find", f"BlockCursor.find({s!r}, many=True) on the body of {path} of {tag}: expected {str(exp)[:80]}, got {str(got)[:80]}",
+                                  {"source": source, "proc": tag, "block": [cpath(path), "body"], "pattern": s, "expected": exp, "got": got})
 
     # ---------------------------------------------------------------- navigation
     def nav_script(self, nt, paths, rng, full):
@@ -1247,7 +1288,8 @@ class Checker:
                 bad += 1
                 law = self.real_law_broken(p, root, paths, idx_of, op, r)
                 key = "nav:" + op[0]
-                rep = {"source": source, "proc": tag, "op": [op[0]] + [self.op_arg(paths, a) for a in op[1:]], "real": r, "model": m}
+                rep = {"source": source, "proc": tag, "op": op, "node_paths": {str(a): cpath(paths[a]) for a in op[1:] if isinstance(a, int) and 0 <= a < len(paths)},
+                       "real": r, "model": m}
                 if law:
                     ctx.violation(key, f"navigation {op[0]} on {tag}: {law}", rep)
                 else:
@@ -1256,11 +1298,6 @@ class Checker:
                     break
         ctx.distinct.add(("nav", tag))
         self.check_laws(source, p, tag, root, nt, paths, idx_of)
-
-    def op_arg(self, paths, a):
-        if isinstance(a, int) and 0 <= a < len(paths):
-            return a
-        return a
 
     def real_law_broken(self, p, root, paths, idx_of, op, r):
         """when real != model: does the real answer break a navigation law (spec side, model-free)?"""
